@@ -203,10 +203,10 @@ def search(ctx):
 def run(ctx) -> int:
     proof = common.proof_stage(ctx.pid)
     known_finding_cases(ctx)
-    nmax = 4
-    if trees(ctx, nmax, 40000 if ctx.thorough else 2500):
+    nmax = 7 if ctx.thorough else 6
+    if trees(ctx, nmax, 400000 if ctx.thorough else 60000):
         ctx.exhaustive.append(f"every deterministic test (verdict tree) for n <= {nmax} atoms x 3 input shapes x {len(CFGS)} option settings")
-    family_runs(ctx, 12 if ctx.thorough else 3)
+    family_runs(ctx, 12 if ctx.thorough else 6)
     return common.decide(ctx, proof, RULE, search=search,
                          assumptions=["the follow-up clause is proved only when re-splitting the result reproduces the remaining atoms (C03_followup_partial); "
                                       "otherwise it is a recorded finding"])
